@@ -59,6 +59,7 @@ type inc struct {
 	seq      isequencer.ISequencer
 	cleanup  context.CancelFunc
 	arrivals chan arrival
+	early    map[string]arrival // arrivals of a role the driver was not yet waiting for
 	gates    map[string]chan struct{}
 	clock    *kit.Clock
 	mu       sync.Mutex
@@ -266,7 +267,7 @@ func (d *driver) emitSnapshot() {
 }
 
 func (d *driver) newIncarnation() {
-	in := &inc{w: d.w, arrivals: make(chan arrival, 4), gates: map[string]chan struct{}{"flusher": make(chan struct{}), "act": make(chan struct{})}, clock: d.clock}
+	in := &inc{w: d.w, arrivals: make(chan arrival, 4), early: map[string]arrival{}, gates: map[string]chan struct{}{"flusher": make(chan struct{}), "act": make(chan struct{})}, clock: d.clock}
 	in.real = appparts.VerifNewSeqStorage(1, 7, nil, nil, vvmstorage.NewVVMSeqStorageAdapter(&kit.Wrap{Inner: d.w.stg, Before: in.before}))
 	d.in = in
 	current.Store(in)
@@ -285,19 +286,33 @@ func (d *driver) newIncarnation() {
 }
 
 func (d *driver) expect(role string, points ...string) string {
-	select {
-	case a := <-d.in.arrivals:
-		if a.role != role {
-			panic(fmt.Sprintf("expected %s at %v, got %s at %s", role, points, a.role, a.point))
-		}
+	check := func(a arrival) string {
 		for _, p := range points {
 			if p == a.point {
 				return a.point
 			}
 		}
 		panic(fmt.Sprintf("expected %s at %v, got it at %s", role, points, a.point))
-	case <-time.After(8 * time.Second):
-		panic(fmt.Sprintf("timeout: expected %s at %v", role, points))
+	}
+	if a, ok := d.in.early[role]; ok {
+		delete(d.in.early, role)
+		return check(a)
+	}
+	for {
+		select {
+		case a := <-d.in.arrivals:
+			if a.role == role {
+				return check(a)
+			}
+			// the other goroutine reached its next point first (e.g. the batcher signals the flusher
+			// before it parks itself): it stays parked there; keep its arrival for the expect that asks for it
+			if _, dup := d.in.early[a.role]; dup {
+				panic(fmt.Sprintf("expected %s at %v, got %s at %s twice", role, points, a.role, a.point))
+			}
+			d.in.early[a.role] = a
+		case <-time.After(8 * time.Second):
+			panic(fmt.Sprintf("timeout: expected %s at %v", role, points))
+		}
 	}
 }
 
